@@ -35,7 +35,7 @@ CONFIG = {
     'thorough': {'shards': 32, 'cases': 1080, 'timeout': 5400, 'floor': 10800},
 }
 REQUIRED = ['addstore_steps', 'steps_reusing_sampler_object', 'crash_reopen_steps', 'steps', 'reuse_steps', 'results_compared', 'call_counters_checked', 'pool_batches_compared', 'context_refusals_checked',
-            'pool_memory', 'pool_disk', 'edit_steps', 'scheduled_steps', 'steps_loading_from_pool', 'column_major_simulator_cases']
+            'pool_memory', 'pool_disk', 'edit_steps', 'scheduled_steps', 'steps_loading_from_pool', 'column_major_simulator_cases', 'smc_pool_reruns_multi_round']
 
 KNOWN_KEY = 'stochastic-node-rerun-after-pool-loaded-prior'
 
@@ -95,6 +95,16 @@ def gen_cases(ctx):
                 step['pick'] = float(rng.random())
             steps.append(step)
         made += 1
+        if made % 6 == 0:
+            # the same seeded multi-round SMC estimation over one pool: filled, then repeated (identical run, the only kind of reuse
+            # whose batches mean the same thing again: SMC overrides the parameters of every batch). The simulator is always among
+            # the stored nodes, so that the open finding about re-simulating after pool-loaded priors is not involved.
+            st2 = sorted(set(stored) | {'S'})
+            yield {'kind': 'smc', 'spec': spec, 'stored': st2, 'bs': bs, 'seed': seed, 'disk': disk, 'n': int(rng.choice([6, 12])),
+                   'thresholds': [float(fin[int(len(fin) * 0.6)]), float(fin[int(len(fin) * 0.35)])][:int(rng.integers(1, 3)) + 0] + (
+                       [float(fin[int(len(fin) * 0.2)])] if rng.random() < 0.4 else []),
+                   'mpb': int(rng.integers(1, 4))}
+            continue
         yield {'spec': spec, 'stored': stored, 'bs': bs, 'seed': seed, 'disk': disk, 'steps': steps, 'reuse_sampler': reuse_sampler}
 
 
@@ -176,7 +186,83 @@ def _same(a, b):
     return None
 
 
+def _smc_same(a, b):
+    if a.n_sim != b.n_sim or len(a.populations) != len(b.populations):
+        return 'n_sim/populations %s vs %s' % ((a.n_sim, len(a.populations)), (b.n_sim, len(b.populations)))
+    for i, (pa, pb) in enumerate(zip(a.populations, b.populations)):
+        for k in set(pa.outputs) | set(pb.outputs):
+            x, y = np.asarray(pa.outputs.get(k)), np.asarray(pb.outputs.get(k))
+            if x.shape != y.shape or x.tobytes() != y.tobytes():
+                return 'population %d output %s differs' % (i, k)
+        if np.asarray(pa.weights).tobytes() != np.asarray(pb.weights).tobytes() or pa.threshold != pb.threshold or pa.n_sim != pb.n_sim:
+            return 'population %d weights/threshold/n_sim differ' % i
+    return None
+
+
+def run_smc(ctx, case):
+    import elfi
+    import elfi.client
+    import elfi.clients.native as nat
+    elfi.client.set_client(nat.Client())
+    spec = case['spec']
+    tmp = tempfile.mkdtemp(prefix='c05-')
+    try:
+        def smc(pool):
+            m = models.build(spec, sim_meta=True)
+            models.reset_log()
+            kw = {'pool': pool} if pool is not None else {}
+            sm = elfi.SMC(m['d'], batch_size=case['bs'], seed=case['seed'], max_parallel_batches=case['mpb'], **kw)
+            hist = []
+            upd = sm.update
+
+            def recording_update(batch, batch_index):
+                hist.append(batch_index)
+                return upd(batch, batch_index)
+            sm.update = recording_update
+            r = sm.sample(case['n'], thresholds=list(case['thresholds']), bar=False)
+            return r, dict(models.CALLS), hist
+        ref, _, hist0 = smc(None)
+        pool = elfi.ArrayPool(list(case['stored']), name='p', prefix=tmp) if case['disk'] else elfi.OutputPool(list(case['stored']))
+        fill, _, hist1 = smc(pool)
+        ctx.event('smc_pool_runs')
+        why = _smc_same(fill, ref)
+        if why:
+            raise Violation('smc-result-differs', 'SMC while FILLING a pool storing %s differs from the pool-free run: %s' % (case['stored'], why))
+        if case['disk'] and case['seed'] % 2:
+            pool.close()
+            pool = elfi.ArrayPool.open('p', prefix=tmp)
+        re, calls, hist2 = smc(pool)
+        ctx.event('smc_pool_reruns')
+        if len(ref.populations) >= 2:
+            ctx.event('smc_pool_reruns_multi_round')
+        why = _smc_same(re, ref)
+        if why:
+            raise Violation('smc-result-differs', 'the same seeded SMC run REUSING a pool storing %s differs from the pool-free run: %s' % (case['stored'], why))
+        held = set(hist1)
+        n_sim_calls = sum(v for (node, key), v in calls.items() if node == 'S' and key is None)
+        expect = sum(1 for b in hist2 if b not in held)
+        if n_sim_calls != expect:
+            raise Violation('call-count', 'SMC rerun: the stored simulator ran %d times, %d consumed batches were not held by the pool' % (n_sim_calls, expect),
+                            {'consumed': hist2, 'held': sorted(held)})
+        ctx.event('call_counters_checked')
+        for x in case['stored']:
+            have = [i for i in range(max(hist1 + hist2) + 1) if pool.has_store(x) and i in pool.get_store(x)]
+            if sorted(set(hist1) | set(hist2)) != have:
+                raise Violation('pool-batches', 'SMC: store %s holds batches %s, consumed so far %s' % (x, have[:40], sorted(set(hist1) | set(hist2))[:40]))
+        ctx.event('pool_batches_compared')
+        ctx.nontrivial(len(ref.populations) >= 2)
+    finally:
+        try:
+            if case['disk']:
+                pool.delete()
+        except Exception:
+            pass
+        shutil.rmtree(tmp, ignore_errors=True)
+
+
 def run_case(ctx, case):
+    if case.get('kind') == 'smc':
+        return run_smc(ctx, case)
     import elfi
     import elfi.client
     import elfi.clients.native as nat
